@@ -450,7 +450,7 @@ Qed.
 Definition s_mydef : str := [77;121;68;101;102]%N.
 Definition s_red : str := [82;101;100]%N.
 Definition s_blue : str := [66;108;117;101]%N.
-Definition tg (b : base) (e : str) : tag := mkTag b e (short_tag (mkTag b e [])).
+Definition tg (b : base) (e : str) : tag := mkTag b e (short_tag (mkTag b e [] [])) [].
 Definition t_red : node := T (tg (BOther s_red false false) []).
 Definition t_blue : node := T (tg (BOther s_blue false false) []).
 (* (Definition/MyDef,(Red,Blue)) *)
@@ -589,7 +589,7 @@ Definition ex_dict_q : dict := fst (add_definitions [] ex_defs_q).
 Lemma defexpand_literal_placeholder_rejected :
   exists t g,
     expansion ex_dict_q (set_base t BDef) =
-      Some [T t; G [T (mkTag (BOther s_label true false) [51]%N (s_label ++ [47;35]%N))]] /\
+      Some [T t; G [T (mkTag (BOther s_label true false) [51]%N (s_label ++ [47;35]%N) [])]] /\
     g = [T t; G [T (tg (BOther s_label true false) [35]%N)]] /\
     defexpand_accepted false ex_dict_q t g = false /\ defexpand_accepted true ex_dict_q t g = false.
 Proof.
@@ -605,3 +605,20 @@ Proof.
   split; [exact ex_dict_wf|]. split; [exact (proj1 (load_inv ex_dict ex_ann))|].
   vm_compute. reflexivity.
 Qed.
+
+(* ------------------------------------------------------------------ names are compared case-folded *)
+
+Definition s_strasse_sz : str := [83;116;114;97;223;101]%N.      (* "Straße" *)
+Definition s_strasse_up : str := [83;84;82;65;83;83;69]%N.       (* "STRASSE" *)
+Definition s_strasse_lo : str := [115;116;114;97;115;115;101]%N. (* "strasse" *)
+Definition ex_dict_sz : dict :=
+  fst (add_definitions [] [[G [T (tg BDefinition s_strasse_sz); G [t_red]]]]).
+
+(* "Straße" is stored under its casefold "strasse" (not under lower() = "straße"); a later
+   "STRASSE" is a duplicate: reported, and the first entry stays; Def/strasse finds it *)
+Lemma casefold_duplicate_example :
+  map fst ex_dict_sz = [s_strasse_lo] /\
+  check_one ex_dict_sz (tg BDefinition s_strasse_up) [T (tg BDefinition s_strasse_up); G [t_blue]]
+    = (ex_dict_sz, [DuplicateDefinition]) /\
+  option_map ename (def_entry ex_dict_sz (tg BDef s_strasse_up)) = Some s_strasse_sz.
+Proof. split; [vm_compute; reflexivity|]. split; vm_compute; reflexivity. Qed.
